@@ -14,6 +14,7 @@ from ..model import AnalysisError, FunctionInfo
 from ..report import Ob, bad, ok, unresolved
 from ..types import members, strip_none
 from . import rule
+from ..domains import _class_names
 from .common import block_classes, constructor_sites, kw, method_calls, prog_is_sub
 
 STRUCTURAL_TUPLE_FIELDS = {"_jump_targets", "backedges", "branch_value_table"}
@@ -348,8 +349,19 @@ class Retarget:
                 self.Ldef = d
                 self.src_block = v.args[0].value
                 self.src_attr = v.args[0].attr
+            elif v is not None and _comp_rename(v) is not None:
+                cr = _comp_rename(v)
+                self.Ldef = d
+                self.src_block = cr[0]
+                self.src_attr = cr[1]
             else:
                 self.problems.append(f"{self.L} is not initialised as list(<block>.<targets>)")
+        elif _comp_rename(a) is not None:
+            cr = _comp_rename(a)
+            self.L = "<comprehension>"
+            self.Ldef = self.node
+            self.src_block = cr[0]
+            self.src_attr = cr[1]
         else:
             self.problems.append("argument is not tuple(<list copy>)")
 
@@ -626,7 +638,7 @@ def store6(ctx) -> List[Ob]:
                         return False
                     t = s.test
                     conj = t.values if isinstance(t, ast.BoolOp) and isinstance(t.op, ast.And) else [t]
-                    guard = any(isinstance(v, ast.Call) and isinstance(v.func, ast.Name) and v.func.id == "isinstance" and len(v.args) == 2 and isinstance(v.args[0], ast.Name) and v.args[0].id in carriers and (A.dotted(v.args[1]) or "").endswith("RegionBlock") for v in conj)
+                    guard = any(isinstance(v, ast.Call) and isinstance(v.func, ast.Name) and v.func.id == "isinstance" and len(v.args) == 2 and isinstance(v.args[0], ast.Name) and v.args[0].id in carriers and any(n.split(".")[-1] == "RegionBlock" for n in (_class_names(v.args[1]) or [])) for v in conj)
                     if not guard:
                         return False
                     for k in A.walk_no_nested(ast.Module(s.body, [])):
@@ -695,6 +707,12 @@ def _pair_check(ctx, fn, cfg, n, carriers, prop) -> Optional[str]:
                         if anc is fn.node:
                             break
                     stores.append((A.unparse(s.value), olds))
+    for st in A.walk_no_nested(fn.node):
+        ap2 = _assign_parts(st) if isinstance(st, (ast.Assign, ast.AnnAssign)) else None
+        if ap2 is not None and len(ap2[0]) == 1 and isinstance(ap2[0][0], ast.Name) and ap2[0][0].id == L:
+            cr = _comp_rename(ap2[1])
+            if cr is not None:
+                stores.append((cr[3], {cr[2]}))
     if not stores:
         return None
     pcs = []
@@ -714,10 +732,40 @@ def _pair_check(ctx, fn, cfg, n, carriers, prop) -> Optional[str]:
 # ------------------------------------------------------------------ STORE-7
 
 
+def _comp_rename(v: ast.AST):
+    """(block expr, attr, OLD, NEW) for `[NEW if s == OLD else s for s in B.attr]` (also tuple(...)/list(...) of it)"""
+    while isinstance(v, ast.Call) and isinstance(v.func, ast.Name) and v.func.id in ("tuple", "list") and len(v.args) == 1:
+        v = v.args[0]
+    if not (isinstance(v, (ast.ListComp, ast.GeneratorExp)) and len(v.generators) == 1):
+        return None
+    g = v.generators[0]
+    if g.ifs or not isinstance(g.target, ast.Name) or not isinstance(g.iter, ast.Attribute):
+        return None
+    e = v.elt
+    sv = g.target.id
+    if isinstance(e, ast.IfExp) and isinstance(e.test, ast.Compare) and len(e.test.ops) == 1 and isinstance(e.test.ops[0], (ast.Eq, ast.NotEq)):
+        names = [A.unparse(e.test.left), A.unparse(e.test.comparators[0])]
+        if sv in names:
+            oldn = [n for n in names if n != sv]
+            if len(oldn) == 1:
+                eq = isinstance(e.test.ops[0], ast.Eq)
+                newe, keep = (e.body, e.orelse) if eq else (e.orelse, e.body)
+                if A.unparse(keep) == sv:
+                    return g.iter.value, g.iter.attr, oldn[0], A.unparse(newe)
+    return None
+
+
 def _rename_loops(fn_node: ast.AST):
     """loops of the form `for i, s in enumerate(L): if s == OLD: L[i] = NEW`
-    -> [(L, OLD, NEW, loop)]"""
+    and element-wise comprehensions `L = [NEW if s == OLD else s for s in B.attr]`
+    -> [(L, OLD, NEW, node)]"""
     out = []
+    for st in A.walk_no_nested(fn_node):
+        ap = _assign_parts(st) if isinstance(st, (ast.Assign, ast.AnnAssign)) else None
+        if ap is not None and len(ap[0]) == 1 and isinstance(ap[0][0], ast.Name):
+            cr = _comp_rename(ap[1])
+            if cr is not None:
+                out.append((ap[0][0].id, cr[2], cr[3], st))
     for lp in A.walk_no_nested(fn_node):
         if not (isinstance(lp, ast.For) and isinstance(lp.iter, ast.Call) and isinstance(lp.iter.func, ast.Name) and lp.iter.func.id == "enumerate" and lp.iter.args and isinstance(lp.iter.args[0], ast.Name)):
             continue
@@ -752,6 +800,10 @@ def store7(ctx) -> List[Ob]:
         # origin of each renamed list
         origin = {}
         for L, old, new, lp in loops:
+            if not isinstance(lp, ast.For):
+                cr = _comp_rename(_assign_parts(lp)[1])
+                origin[id(lp)] = (A.unparse(cr[0]), cr[1])
+                continue
             for d in cfg.reaching_defs(lp.iter, L):
                 if d.stmt is not None and isinstance(d.stmt, ast.Assign):
                     v = d.stmt.value
